@@ -27,6 +27,9 @@ import (
 // preemption points (seeded delays) so that every run realises a different
 // interleaving. Each run ends with a fault-free phase and quiescence checks.
 
+// errBox gives errors of different dynamic types one type for atomic.Value.
+type errBox struct{ err error }
+
 type c09Case struct {
 	Seed    int64
 	Callers int
@@ -196,7 +199,7 @@ func runC09Case(c *fw.Ctx, id string, cs c09Case) {
 				atomic.AddInt64(&completed, 1)
 				if err != nil {
 					atomic.AddInt64(&failed, 1)
-					firstErr.CompareAndSwap(nil, err)
+					firstErr.CompareAndSwap(nil, errBox{err})
 				}
 			}
 		}(g)
@@ -250,7 +253,13 @@ func runC09Case(c *fw.Ctx, id string, cs c09Case) {
 	}
 	c.Count("requests_completed", atomic.LoadInt64(&completed))
 	c.Count("requests_failed_during_faults", atomic.LoadInt64(&failed))
-	if e, _ := firstErr.Load().(error); e != nil && !isCtxErr(e) {
+	if b, _ := firstErr.Load().(errBox); b.err != nil && isCtxErr(b.err) {
+		// every request has a 60 s deadline and the faults stop after about half a
+		// second: a request that ran into its deadline sat blocked for almost a
+		// minute on a stable cluster
+		c.Violate(id, "stress:request-stranded", fmt.Sprintf("a request was still blocked when its 60 s deadline expired although the cluster had long been stable (%v): %s", b.err, cs), cs)
+	} else if b.err != nil {
+		e := b.err
 		// during the fault phase only scans may fail (their errors are not recorded);
 		// single calls and batches are retried until they succeed
 		c.Violate(id, "stress:retryable-error-surfaced", fmt.Sprintf("a request failed with %v: %s", e, cs), cs)
